@@ -692,6 +692,11 @@ func evalC10Replay(c *core.Ctx, r *core.Replay) (bool, string, error) {
 		err := evalPairs(nil, []*pairCase{pc}, func(_ *pairCase, _ *core.Job, key, msg string) { msgs = append(msgs, msg) })
 		return len(msgs) > 0, strings.Join(msgs, "\n"), err
 	case "recursive":
+		if strings.Contains(r.Note, "short-limit") {
+			old := recursiveLimit
+			recursiveLimit = 15 * time.Second
+			defer func() { recursiveLimit = old }()
+		}
 		failed, msg, err := evalRecursive(r.Case, r.Jobs)
 		return failed, msg, err
 	}
@@ -742,6 +747,26 @@ type recCase struct {
 	docs  func(depth int) jv.V
 }
 
+// anyOfItemsCycle: two definitions that refer to each other through
+// array-items anyOf lists and have different property names.
+func anyOfItemsCycle() *recCase {
+	branches := `{"anyOf":[{"$ref":"#/definitions/Foo"},{"$ref":"#/definitions/Bar"}]}`
+	text := `{"$id":"https://example.com/prog","definitions":{"Foo":{"type":"object","properties":{"fooItems":{"type":"array","items":` + branches + `}}},` +
+		`"Bar":{"type":"object","properties":{"barItems":{"type":"array","items":` + branches + `}}}},"type":"object","properties":{"q":{"type":"array","items":` + branches + `}}}`
+	return &recCase{name: "anyof.items.mutual", files: []gen.FileText{{RelPath: "prog.json", Text: text}}, typ: "ProgJson",
+		docs: func(d int) jv.V {
+			v := jv.ObjV(jv.Field("fooItems", jv.ArrV()))
+			for i := 0; i < d; i++ {
+				if i%2 == 0 {
+					v = jv.ObjV(jv.Field("barItems", jv.ArrV(v)))
+				} else {
+					v = jv.ObjV(jv.Field("fooItems", jv.ArrV(v)))
+				}
+			}
+			return jv.ObjV(jv.Field("q", jv.ArrV(v)))
+		}}
+}
+
 func recursiveCases(t *rapid.T) *recCase {
 	obj := func(props string, extra string) string {
 		return `{"type":"object","properties":{` + props + `}` + extra + `}`
@@ -784,13 +809,17 @@ func recursiveCases(t *rapid.T) *recCase {
 
 // evalRecursive: generation through the real CLI must terminate with status 0
 // and the type must accept and round-trip the nested documents.
+// recursiveLimit is the time allowed for generating a small recursive schema
+// (normally milliseconds); witnesses of a known non-termination use a short one.
+var recursiveLimit = 60 * time.Second
+
 func evalRecursive(cs *gen.Case, jobs []core.Job) (bool, string, error) {
-	res, err := gen.RunCLI(cs, nil, nil, 60*time.Second, false)
+	res, err := gen.RunCLI(cs, nil, nil, recursiveLimit, false)
 	if err != nil {
 		return false, "", err
 	}
 	if res.TimedOut {
-		return true, "generation of a recursive schema did not terminate within 60 s", nil
+		return true, fmt.Sprintf("generation of a recursive schema did not terminate within %v", recursiveLimit), nil
 	}
 	if res.Exit != 0 {
 		return true, fmt.Sprintf("generation of a recursive schema failed (exit %d): %s", res.Exit, core.Clip(res.Stderr, 400)), nil
@@ -836,6 +865,13 @@ func runRecursive(c *core.Ctx) {
 	reported := map[string]bool{}
 	res := c.Rapid("recursive", n, 3, func(rt *rapid.T) {
 		rc := recursiveCases(rt)
+		if rapid.IntRange(0, 6).Draw(rt, "anyofcycle") == 0 {
+			if c.Avoid("refs.anyof_items_cycle") {
+				c.ExcludedMap()["refs.anyof_items_cycle"]++
+			} else {
+				rc = anyOfItemsCycle()
+			}
+		}
 		cfg := baseConfig()
 		cfg.ExtraImports = rapid.Bool().Draw(rt, "extra")
 		cs := &gen.Case{Files: rc.files, Inputs: []string{"prog.json"}, Config: cfg}
